@@ -172,7 +172,8 @@ def work_tuner(item, opts):
         try:
             import contextlib, io
             with contextlib.redirect_stdout(io.StringIO()):
-                tuner.execute(task, n_trials=n_trials, n_jobs=item.get("n_jobs", 2), mode=item.get("mode", "serial"), n_workers=2)
+                tuner.execute(task, n_trials=n_trials, n_jobs=item.get("n_jobs", 2), mode=item.get("mode", "serial"), n_workers=2,
+                              debug=bool(item.get("debug")))
         except Exception as e:
             viol("execute-exception", f"{type(e).__name__}: {e}")
             return out
@@ -309,7 +310,8 @@ def check(prop, tier, seed):
         g = rng.choice(tun_grids)
         items.append({"seed": f"{seed}/{k}", "grid": g, "n_trials": rng.choice([1, 2, 2, 3]), "minmax": rng.choice(["min", "max"]),
                       "style": rng.choice(["distinct", "distinct", "tied-means", "all-equal", "negative"]),
-                      "n_jobs": rng.choice([2, 3]), "mode": rng.choice(["serial", "serial", "thread"])})
+                      "n_jobs": rng.choice([1, 2, 3, 5]), "mode": rng.choice(["serial", "serial", "thread", "process"]),
+                      "debug": rng.random() < 0.3})
     res = runner.run_parallel("pvmon.props.c19", "work_tuner", items, {}, jobs=8, per_item_s=60)
     calls = pts = done = 0
     for it, r in zip(items, res):
